@@ -2539,6 +2539,13 @@ func (f *FlushErr) Error() string {
 //
 // Flush handles updating the reference counts within the RIB.
 func (r *RIB) Flush(networkInstances []string) error {
+	// AddEntry checks that an entry's references resolve before it takes the
+	// lock of the network instance that it installs into. A Flush that ran
+	// between the two would leave the entry installed (and acknowledged) with
+	// its references gone, so AddEntry calls are excluded for the duration.
+	r.pendMu.add.Lock()
+	defer r.pendMu.add.Unlock()
+
 	errs := []error{}
 
 	for _, netInst := range networkInstances {
